@@ -281,6 +281,11 @@ def run_shard(shard, tier, seed):
             r = rule_doc(["sel"], "sel", logsource=rls)
             f = filter_doc(["flt"], "not flt", logsource=fls)
             judge_applies(res, "L", [r], f, {"rule1": covered(rls, fls)}, f"logsource/{sorted(rls)}/{sorted(fls)}")
+            # the free-text definition is no part of the coverage relation
+            for rdef, fdef in ((None, "filter text"), ("rule text", None), ("rule text", "filter text")):
+                r2 = rule_doc(["sel"], "sel", logsource=dict(rls, **({"definition": rdef} if rdef else {})))
+                f2 = filter_doc(["flt"], "not flt", logsource=dict(fls, **({"definition": fdef} if fdef else {})))
+                judge_applies(res, "L", [r2], f2, {"rule1": covered(rls, fls)}, f"logsource+definition/{sorted(rls)}/{sorted(fls)}/{bool(rdef)}{bool(fdef)}")
         res["samples"].append({"sub": "L", "rule_logsource": {"category": "c1", "product": "p1"}, "filter_logsource": {"product": "p2"}})
     else:
         for rules, targets, corr in space_R():
